@@ -23,6 +23,17 @@ type Clause struct {
 	Line  int
 }
 
+// ChanInv: an invariant of every value sent on a channel of the given element type, named by a
+// predicate of one parameter: an obligation at each send in a function under contract, a fact
+// about each received value.
+type ChanInv struct {
+	Elem TypeExpr
+	Pred string
+	Src  string
+	File string
+	Line int
+}
+
 type LoopSpec struct {
 	Invariants []Clause
 	Decreases  *Clause
@@ -122,6 +133,7 @@ type Contracts struct {
 	Ghosts  map[string]*GhostDecl
 	Effects map[string]*EffectDecl
 	Lemmas  map[string]*LemmaDecl
+	ChanInvs []*ChanInv
 	Order   []string // function keys in file order
 	LemmaOrder []string
 	Files   []string
@@ -248,6 +260,17 @@ func (cs *Contracts) ReadFile(path, pkgPath string) error {
 			}
 			eu.Post = true
 			cur.EmitsEff = append(cur.EmitsEff, eu)
+		case "chaninv":
+			parts := strings.Fields(rest)
+			if len(parts) != 2 {
+				return fail("chaninv ELEMTYPE PRED")
+			}
+			ty, err := ParseType(parts[0])
+			if err != nil {
+				return fail("%v", err)
+			}
+			cs.ChanInvs = append(cs.ChanInvs, &ChanInv{Elem: ty, Pred: parts[1], Src: rest, File: path, Line: rl.line})
+			cur, curLemma = nil, nil
 		case "effectdecl":
 			ed, err := parseEffectDecl(rest)
 			if err != nil {
